@@ -182,6 +182,91 @@ Theorem C12_records_well_formed : forall cfg ops,
 Proof. intros cfg ops. exact (exec_wf cfg ops (state_init cfg) (init_wf cfg)). Qed.
 Print Assumptions C12_records_well_formed.
 
+(* get_table_dataframe after ANY history (reporters that never raise at a collect, as in C12_refinement): for every
+   declared table with at least one column the frame exists (no ValueError: the columns are aligned), its columns are the
+   declared columns in order and row i holds the cells of the i-th accepted row of that table - None where a column was
+   missing and ignore_missing=True filled it *)
+Theorem C12_table_frame_rows : forall cfg ops t cs,
+  NoDup (map fst (c_mreps cfg)) -> NoDup (map fst (c_tables cfg)) ->
+  forallb (ok_at cfg) (collect_worlds world_init ops) = true ->
+  In (t, cs) (c_tables cfg) -> cs <> [] ->
+  exists cols, In (t, cols) (d_tables (s_d (exec cfg (state_init cfg) ops))) /\
+    table_frame cols = Ok {| cf_cols := cs;
+                             cf_rows := map (fun r => map (fun c => row_cell r c) cs) (rows_for t (accepted cfg ops)) |}.
+Proof.
+  intros cfg ops t cs H1 H2 H3 Hin Hne.
+  rewrite (r_tables _ _ _ _ (refinement cfg ops H1 H2 H3)).
+  exists (map (fun c => (c, map (fun r => row_cell r c) (rows_for t (accepted cfg ops)))) cs). split.
+  - unfold tables_of. apply in_map_iff. exists (t, cs). split; [reflexivity|exact Hin].
+  - exact (table_frame_rows cs _ Hne).
+Qed.
+Print Assumptions C12_table_frame_rows.
+
+(* ================= collects during which a reporter raises =================
+   EXACTLY the state collect leaves behind when it raises (`raised` lists the four ways: validation at the first
+   collect - nothing appended; model reporter number j - reporters 0..j-1 appended, j.. not, nothing else touched;
+   an agent reporter - model vars and _collection_steps complete, no agent records; an agent-type key/reporter -
+   agent records done, the classes before the failing one recorded). *)
+Theorem C12_collect_raises_state : forall cfg w d d' e,
+  NoDup (map fst (c_mreps cfg)) -> collect cfg w d = (d', Err e) -> raised cfg w d e d'.
+Proof. exact collect_raises_state. Qed.
+Print Assumptions C12_collect_raises_state.
+
+(* the model-reporter loop, raising or not: exactly the first j reporters (dictionary order) get exactly one value,
+   their direct value at that moment; j = all of them iff no reporter raised.  In particular the NEXT successful
+   collect after a raising one still appends exactly one value per model reporter. *)
+Theorem C12_model_reporter_loop_exact : forall w rs, NoDup (map fst rs) -> forall mv,
+  exists j, (j <= length rs)%nat /\
+    fst (collect_mvars w rs mv) = mvars_prefix w rs j mv /\
+    (forall p, In p (firstn j rs) -> res_ok (eval_mrep w (snd p)) = true) /\
+    match snd (collect_mvars w rs mv) with
+    | Ok _ => j = length rs
+    | Err e => exists p, nth_error rs j = Some p /\ eval_mrep w (snd p) = Err e
+    end.
+Proof. exact collect_mvars_spec. Qed.
+Print Assumptions C12_model_reporter_loop_exact.
+
+(* whatever way collect raises: tables untouched, agent / agent-type records of every other step untouched *)
+Theorem C12_collect_raises_keeps_rest : forall cfg w d d' e s,
+  NoDup (map fst (c_mreps cfg)) -> collect cfg w d = (d', Err e) ->
+  d_tables d' = d_tables d /\
+  (s <> w_steps w -> aget s (d_arecs d') = aget s (d_arecs d) /\ aget s (d_trecs d') = aget s (d_trecs d)).
+Proof.
+  intros cfg w d d' e s Hnd H. split.
+  - pose proof (collect_tables cfg w d) as Ht. rewrite H in Ht. exact Ht.
+  - exact (raised_other_steps cfg w d e d' s (collect_raises_state cfg w d d' e Hnd H)).
+Qed.
+Print Assumptions C12_collect_raises_keeps_rest.
+
+(* FINDING CANDIDATE (key C18/datacollector/collect-raising-reporter): when model reporter number j >= 1 raises,
+   the first reporter's list has grown by one and reporter j's has not - the model_vars lists are ragged, positions no
+   longer identify a collect, and (Example below) get_model_vars_dataframe raises ValueError ever after *)
+Theorem C12_raising_reporter_leaves_ragged_model_vars : forall cfg w d j p n0 r0,
+  NoDup (map fst (c_mreps cfg)) ->
+  nth_error (c_mreps cfg) 0 = Some (n0, r0) -> nth_error (c_mreps cfg) j = Some p -> (0 < j)%nat ->
+  forall l0 lj, aget n0 (d_mvars d) = Some l0 -> aget (fst p) (d_mvars d) = Some lj ->
+  aget n0 (mvars_prefix w (c_mreps cfg) j (d_mvars d)) = Some (l0 ++ [mval_at w r0]) /\
+  aget (fst p) (mvars_prefix w (c_mreps cfg) j (d_mvars d)) = Some lj.
+Proof. exact raised_ragged. Qed.
+Print Assumptions C12_raising_reporter_leaves_ragged_model_vars.
+
+(* non-vacuity: reporter 1 reads model.m0 through a bound method (not validated); m0 is deleted before the second
+   collect: that collect raises AttributeError after appending to reporter 0 only; the third collect (m0 set again)
+   appends one value to each, the lists stay 3 vs 2 long and the model frame raises ValueError *)
+Definition ex_raise_cfg : config :=
+  {| c_mreps := [(0, MRFun false FSteps); (1, MRMethod (FAttr 0))]; c_areps := []; c_treps := []; c_tables := [] |}.
+Definition ex_raise_ops : list op := [SetAttr 0 5; Collect; DelAttr 0; Step; Collect; SetAttr 0 7; Step; Collect].
+Example C12_raise_example :
+  NoDup (map fst (c_mreps ex_raise_cfg)) /\
+  run_ops ex_raise_cfg (state_init ex_raise_cfg) [SetAttr 0 5; Collect; DelAttr 0; Step; Collect]
+    = [[0; 2; 0; 0; 1; 0; 0; 0; 0]; [0; 2; 0; 1; 1; 0; 1; 1; 1; 5; 0; 0; 0]; [0; 2; 0; 1; 1; 0; 1; 1; 1; 5; 0; 0; 0];
+       [0; 2; 0; 1; 1; 0; 1; 1; 1; 5; 0; 0; 0]; [-1; 1; 2; 0; 2; 1; 0; 1; 1; 1; 1; 1; 5; 0; 0; 0]] /\
+  d_mvars (s_d (exec ex_raise_cfg (state_init ex_raise_cfg) ex_raise_ops))
+    = [(0, [SInt 0; SInt 1; SInt 2]); (1, [SInt 5; SInt 7])] /\
+  model_frame ex_raise_cfg (s_d (exec ex_raise_cfg (state_init ex_raise_cfg) ex_raise_ops)) = Err E_VALUE /\
+  d_csteps (s_d (exec ex_raise_cfg (state_init ex_raise_cfg) ex_raise_ops)) = [0; 2].
+Proof. split; [repeat constructor; simpl; intuition congruence|]. repeat split; vm_compute; reflexivity. Qed.
+
 (* ================= code-level T1: the same statements about the code TRANSLATED from the working tree =================
    gen_* are regenerated from mesa/datacollection.py on every run (harness/tables/datacollect_batch_code.py). *)
 
@@ -254,13 +339,17 @@ Example C12_example :
               length (af_rows fr) = 3%nat /\ af_cols fr = [0; 1] /\
               map fst (group_rows (af_rows fr)) = [0; 1]) /\
   (exists fr, model_frame ex_cfg (s_d (exec ex_cfg (state_init ex_cfg) ex_ops)) = Ok fr /\
-              length (cf_rows fr) = 3%nat /\ cf_cols fr = [0; 1; 2; 3]).
+              length (cf_rows fr) = 3%nat /\ cf_cols fr = [0; 1; 2; 3]) /\
+  (* a row with a missing column accepted under ignore_missing shows up as None in the table frame *)
+  (exists cols, aget 0 (d_tables (s_d (exec ex_cfg (state_init ex_cfg) (ex_ops ++ [AddRow 0 [(1, Some 9)] true])))) = Some cols /\
+     table_frame cols = Ok {| cf_cols := [0; 1]; cf_rows := [[Some 1; None]; [None; Some 9]] |}).
 Proof.
   repeat split; try (vm_compute; reflexivity).
   - repeat constructor; simpl; intuition congruence.
   - repeat constructor; simpl; intuition congruence.
   - repeat constructor; simpl; intuition congruence.
   - eexists. vm_compute. reflexivity.
+  - eexists. vm_compute. repeat split; reflexivity.
   - eexists. vm_compute. repeat split; reflexivity.
   - eexists. vm_compute. repeat split; reflexivity.
 Qed.
